@@ -3,6 +3,7 @@ package server
 import (
 	"context"
 	"fmt"
+	"io"
 	"math/rand"
 	"path/filepath"
 	"strconv"
@@ -503,6 +504,9 @@ func (p *partition) newSubscribeLoop(ctx context.Context, groupID, consumerID st
 				} else if err == commitlog.ErrCommitLogReadonly {
 					// Partition was set to readonly while subscribed.
 					s = status.New(codes.ResourceExhausted, "End of readonly partition")
+				} else if reverse && err == io.EOF {
+					// The reverse reader reached the beginning of the log.
+					s = status.New(codes.ResourceExhausted, "Beginning of partition reached")
 				} else {
 					s = status.Convert(err)
 				}
